@@ -129,7 +129,16 @@ def labelPos (code idx : Nat) : Bool :=
   ((isBranchCode code || code == opPRBEQ || code == opPRBNE) && idx == 0)
   || (code == opLADDR && idx == 1) || (code == opSWITCH && idx > 0)
 
-/-- a bare name operand (mir.c:6420-6448) -/
+/-- a bare name operand (mir.c:6420-6448).  The text has one lexical class for labels, registers, items,
+types, instruction names and keywords; what a bare name in operand position `idx` of statement `h` denotes is
+decided in this order:
+1. `export` / `import` / `forward`: the name of the item being declared;
+2. `lref`: a label;
+3. a label position of the instruction (`labelPos`: operand 0 of a branch, `prbeq`, `prbne`; operand 1 of
+   `laddr`; every operand but the first of `switch`): a label, even if a register or an item has that spelling;
+4. a register of the open function (not in `expr` / `ref` statements), even if an item has that spelling;
+5. an item of the open module;
+6. otherwise `undeclared name`. -/
 def elabName (st : St) (h : Head) (idx : Nat) (n : Str) : Except Err (St × Option Op) :=
   match h with
   | .export => (newItem st (some n) .export (.export n)).map fun s => (s, none)
